@@ -308,3 +308,59 @@ def allocator_before_destructor(prog, res, rule, ctors):
         res.check(ok, rule, fname, f.loc, "%s is stored before %s can run" % (fld, "/".join(dtors)),
                   "%s can call %s before the object's %s is set: memory from the caller's allocator would be released with free()"
                   % (fname, "/".join(dtors), fld))
+
+
+def no_dangling_owner(prog, res, rule, fns, exceptions=None):
+    """T5g: after an owned field `obj->f` has been handed to a release function, every path to the
+    function's exit re-assigns `obj->f` (NULL or a new object) or releases `obj` itself
+    (destructor).  Otherwise an early return leaves the owner pointing at freed memory, to be
+    freed or read again by the next operation."""
+    exceptions = exceptions or {}
+    n = 0
+    for f in fns:
+        frees = []
+        for b, i, r in f.roots():
+            for x in walk(r):
+                if x.get("k") != "call":
+                    continue
+                cn = x.get("c") or ""
+                rel = bool(RELEASE_RE.search(cn))
+                if x.get("c") is None:
+                    fn = strip_casts(x.get("fn"))
+                    rel = fn is not None and fn.get("k") == "mem" and fn["f"] == "customFree"
+                if not rel:
+                    continue
+                args = x.get("a", [])
+                pos = 1 if re.search(r"release|Release", cn) and len(args) >= 2 else 0     # release(pool, object) vs free(object, ...)
+                if len(args) > pos:
+                    K = key(f, args[pos])
+                    if K and ("->" in K) and not K.endswith("[]") and K.count("->") == 1 and "." not in K.split("->")[1]:
+                        frees.append((b, i, K, x))
+        for b, i, K, call in frees:
+            root = K.split("->")[0]
+            again = []
+            for b2, i2, r2 in f.roots():
+                for y in walk(r2):
+                    if y.get("k") == "asg" and key(f, y["lhs"]) == K:
+                        again.append((b2, i2))
+                    elif y.get("k") == "call" and (b2, i2) != (b, i):
+                        cn2 = y.get("c") or ""
+                        isrel = bool(RELEASE_RE.search(cn2)) or (y.get("c") is None and (strip_casts(y.get("fn")) or {}).get("f") == "customFree")
+                        if isrel and any(key(f, a) == root for a in y.get("a", [])):
+                            again.append((b2, i2))       # the owner itself is released
+                        if y.get("c") in MEMFILL and any(key(f, a) == root for a in y.get("a", [])[:1]):
+                            again.append((b2, i2))       # the owner is wiped
+            n += 1
+            ikey = "%s:%s" % (f.name, K)
+            where = "%s:%s" % (f.file, call.get("l"))
+            if RELEASE_RE.search(f.name) and root == "P:0":
+                res.ok(rule, ikey + "@%s" % call.get("l"), where, "destructor of its first parameter: the owner does not outlive the call")
+                continue
+            ok = f.must_pass(via_roots=set(again), starts=[(b, i + 1)])
+            if not ok and (f.name, K) in exceptions:
+                res.ok(rule, ikey, where, "frozen exception: " + exceptions[(f.name, K)])
+                continue
+            res.check(ok, rule, ikey + "@%s" % call.get("l"), where, "the freed field is re-assigned (or its owner released) on every path to an exit",
+                      "%s releases %s and can return with the field still pointing at the freed object: the next operation on the owner frees or reads it again" % (f.name, K))
+    res.count(rule + ".sites", n)
+    return n
